@@ -336,7 +336,7 @@ func c34RT(targets []uint64, signals [][]uint64, unsub int) func(*vs.Sched, func
 func TestVerif_C34(t *testing.T) {
 	r := kit.Start(t, "C34", "sched")
 	defer r.Finish()
-	r.Rule("E-SCHED on the real CheckAndSet, MultiRSW and ReadyTarget (cas.go, multir_singlew.go, ready_target.go instrumented from the current tree): per scenario of 2-4 threads every interleaving of their lock-protected steps (deviation bound -1 = unbounded, happens-before state pruning; larger scenarios bounded) with mutual exclusion / readers-xor-writer checked inside every critical section, spurious try-failures, blocked-forever terminal states (lost wake-ups), early or missing wake-ups of index waiters. distinct = distinct acquisition logs observed")
+	r.Rule("E-SCHED on the real CheckAndSet, MultiRSW and ReadyTarget (cas.go, multir_singlew.go, ready_target.go instrumented from the current tree): per scenario of 2-4 threads every interleaving of their lock-protected steps (deviation bound -1 = unbounded, happens-before state pruning; larger scenarios bounded) with mutual exclusion / readers-xor-writer checked inside every critical section, spurious try-failures, blocked-forever terminal states (lost wake-ups), early or missing wake-ups of index waiters. distinct = distinct acquisition logs observed; states = distinct happens-before state keys at scheduling decisions, summed over the shard processes; traces_validated_against_impl = executions re-run from their recorded schedule (1 in 16, plus every violating one) that gave the same observation, the same choice points and the same state keys")
 	scs := []c34Scn{
 		{"cas-3try", c34CAS(3, 0, 0), -1, -1},
 		{"cas-2try-1retry", c34CAS(2, 1, 50*time.Millisecond), -1, -1},
@@ -372,6 +372,8 @@ func TestVerif_C34(t *testing.T) {
 		r.Eval(int(st.Executions))
 		r.Transition(int(st.ChoicePts))
 		r.Validated(int(st.Replays))
+		r.State(int(st.StatesSeen))
+		r.Add("replays_with_different_hb_state_keys", st.KeyNoise)
 		var oks []string
 		for o := range st.Outcomes {
 			r.Distinct(sc.name + ":" + o)
